@@ -570,8 +570,9 @@ func VerifC10_LoadMarshal() {
 
 func init() { vrt.Register("VerifC10_Deep", VerifC10_Deep) }
 
-// VerifC10_Deep: Outer2{ map<string,In2> mm=1; repeated In2 lm=2; string t=3 }, In2{ string y=1; int32 x=2 }.
-// Edits below a map value / list element: SetByPath / UnsetByPath of y or x of entry / element SEL of CNT.
+// VerifC10_Deep: Outer2{ map<string,In2> mm=MFN; repeated In2 lm=LFN; string t=3 }, In2{ string y=1; int32 x=2 },
+// optionally (WRAP=1) nested in Top{ Outer2 o=1; string z=2 }.  Edits below a map value / list element:
+// SetByPath / UnsetByPath of y or x of entry / element SEL of CNT.  MFN / LFN of 16 and above give 2-byte tags.
 func VerifC10_Deep() {
 	viaMap := vrt.Param("VIAMAP") == 1
 	cnt := vrt.Param("CNT")
@@ -579,19 +580,34 @@ func VerifC10_Deep() {
 	op := vrt.Param("OP") // 0 set y, 1 set x, 2 unset y, 3 unset x
 	slen := vrt.Param("SLEN")
 	nlen := vrt.Param("NLEN")
+	wrap := vrt.Param("WRAP") == 1
+	big := vrt.Param("BIGFN") == 1
+	mfn, lfn := 1, 2
+	if big {
+		mfn, lfn = 16, 17
+	}
 	in2 := proto.VerifNewMessage("In2")
 	proto.VerifAddField(in2, 1, "y", "y", proto.VerifBasic(proto.STRING), false)
 	proto.VerifAddField(in2, 2, "x", "x", proto.VerifBasic(proto.INT32), false)
 	proto.VerifBuild(in2)
 	outer := proto.VerifNewMessage("Outer2")
-	proto.VerifAddMap(outer, 1, "mm", "mm", proto.VerifBasic(proto.STRING), in2)
-	proto.VerifAddField(outer, 2, "lm", "lm", in2, true)
+	proto.VerifAddMap(outer, proto.FieldNumber(mfn), "mm", "mm", proto.VerifBasic(proto.STRING), in2)
+	proto.VerifAddField(outer, proto.FieldNumber(lfn), "lm", "lm", in2, true)
 	proto.VerifAddField(outer, 3, "t", "t", proto.VerifBasic(proto.STRING), false)
 	proto.VerifBuild(outer)
+	root := outer
 	schema := &vrt.PSchema{Sub: map[int]*vrt.PSchema{
-		1: {Sub: map[int]*vrt.PSchema{2: {}}},
-		2: {},
+		mfn: {Sub: map[int]*vrt.PSchema{2: {}}},
+		lfn: {},
 	}}
+	if wrap {
+		top := proto.VerifNewMessage("Top")
+		proto.VerifAddField(top, 1, "o", "o", outer, false)
+		proto.VerifAddField(top, 2, "z", "z", proto.VerifBasic(proto.STRING), false)
+		proto.VerifBuild(top)
+		root = top
+		schema = &vrt.PSchema{Sub: map[int]*vrt.PSchema{1: schema}}
+	}
 	type in2v struct {
 		hasY, hasX bool
 		y          []byte
@@ -619,20 +635,33 @@ func VerifC10_Deep() {
 				var e []byte
 				e = gpw.AppendBytes(gpw.AppendTag(e, 1, gpw.BytesType), []byte{'k', byte('0' + i)})
 				e = gpw.AppendBytes(gpw.AppendTag(e, 2, gpw.BytesType), m)
-				b = gpw.AppendBytes(gpw.AppendTag(b, 1, gpw.BytesType), e)
+				b = gpw.AppendBytes(gpw.AppendTag(b, gpw.Number(mfn), gpw.BytesType), e)
 			} else {
-				b = gpw.AppendBytes(gpw.AppendTag(b, 2, gpw.BytesType), m)
+				b = gpw.AppendBytes(gpw.AppendTag(b, gpw.Number(lfn), gpw.BytesType), m)
 			}
 		}
-		return gpw.AppendBytes(gpw.AppendTag(b, 3, gpw.BytesType), tv)
+		// protobuf-go orders by field number: t=3 comes first when the containers have numbers >= 16
+		if big {
+			b = append(gpw.AppendBytes(gpw.AppendTag(nil, 3, gpw.BytesType), tv), b...)
+		} else {
+			b = gpw.AppendBytes(gpw.AppendTag(b, 3, gpw.BytesType), tv)
+		}
+		if wrap {
+			b = gpw.AppendBytes(gpw.AppendTag(nil, 1, gpw.BytesType), b)
+			b = gpw.AppendBytes(gpw.AppendTag(b, 2, gpw.BytesType), []byte{'z'})
+		}
+		return b
 	}
 	src := enc()
-	v := NewRootValue(outer, src)
+	v := NewRootValue(root, src)
 	var pth []Path
+	if wrap {
+		pth = append(pth, NewPathFieldId(1))
+	}
 	if viaMap {
-		pth = []Path{NewPathFieldId(1), NewPathStrKey(string([]byte{'k', byte('0' + sel)}))}
+		pth = append(pth, NewPathFieldId(proto.FieldNumber(mfn)), NewPathStrKey(string([]byte{'k', byte('0' + sel)})))
 	} else {
-		pth = []Path{NewPathFieldId(2), NewPathIndex(sel)}
+		pth = append(pth, NewPathFieldId(proto.FieldNumber(lfn)), NewPathIndex(sel))
 	}
 	t := &vals[sel]
 	was := true
@@ -673,7 +702,7 @@ func VerifC10_Deep() {
 	_, ok := vrt.PFields(got)
 	vrt.Assert(ok, "C10.deep.well-formed")
 	if ok {
-		vrt.Assert(vrt.PEq(want, got, schema, 4), "C10.deep.equals-model")
+		vrt.Assert(vrt.PEq(want, got, schema, 5), "C10.deep.equals-model")
 	}
 }
 
